@@ -132,6 +132,20 @@ Theorem C18_define_parse : forall name, ~ In 61 name ->
        | None => CErr (EDefineValue name) | Some (v, sz) => COk (name, DInt (- Z.of_N v) None) end)).
 Proof. exact define_parse. Qed.
 
+(* the sign of a define belongs to the driver, not to the number parser: `NAME=-<literal>` is the UNSIZED negation of the
+   literal (a negated `0xff` is -255 with no declared size, so an 8-bit consumer must refuse it); a positive radix literal
+   keeps its digit-count size *)
+Theorem C18_define_negated_unsized : forall name body v sz, ~ In 61 name -> ~ In 61 body ->
+  excerpt_as_bigint cli_radix_prefix2 cli_radix_prefix1 cli_empty_literal_is_error body = COk (Some (v, sz)) ->
+  parse_define (name ++ 61 :: 45 :: body) = COk (name, DInt (- Z.of_N v) None).
+Proof. exact define_negated_unsized. Qed.
+
+Theorem C18_define_positive_sized : forall name body v sz, ~ In 61 name -> ~ In 61 body ->
+  text_eqb body t_true = false -> text_eqb body t_false = false -> (forall r, body <> 45 :: r) ->
+  excerpt_as_bigint cli_radix_prefix2 cli_radix_prefix1 cli_empty_literal_is_error body = COk (Some (v, sz)) ->
+  parse_define (name ++ 61 :: body) = COk (name, DInt (Z.of_N v) sz).
+Proof. exact define_positive_sized. Qed.
+
 (* ---- non-vacuity -------------------------------------------------------------------------------------------------- *)
 From Coq Require Import String.
 Open Scope string_scope.
@@ -151,7 +165,8 @@ Example C18_nonvacuous :
   derive_output_filename {| f_ctor := T "Symbols"; f_fields := [] |} (T ".asm") = COk (T ".asm.txt") /\
   parse_define (T "X=0x1_f") = COk (T "X", DInt 31 (Some 8)) /\ parse_define (T "X=-%101") = COk (T "X", DInt (-5) None) /\
   parse_define (T "X=$ff") = COk (T "X", DInt 255 (Some 8)) /\ parse_define (T "X=0o17") = COk (T "X", DInt 15 (Some 6)) /\
-  parse_define (T "X=12") = COk (T "X", DInt 12 None) /\ parse_define (T "X=") = CErr (EDefineValue (T "X")) /\
+  parse_define (T "X=12") = COk (T "X", DInt 12 None) /\ parse_define (T "X=-0xff") = COk (T "X", DInt (-255) None) /\
+  parse_define (T "X=0xff") = COk (T "X", DInt 255 (Some 8)) /\ parse_define (T "X=-0b11111111") = COk (T "X", DInt (-255) None) /\ parse_define (T "X=") = CErr (EDefineValue (T "X")) /\
   parse_define (T "X=0x") = CErr (EDefineValue (T "X")) /\ parse_define (T "X=1=2") = CErr (EDefine (T "X=1=2")).
 Proof. vm_compute. repeat split. Qed.
 
